@@ -2,5 +2,6 @@ SPECIFICATION TSpec
 CONSTANTS
   K = 1
   Classes = {}
+  Limits = {}
   Mut = "none"
 CHECK_DEADLOCK FALSE
